@@ -598,6 +598,52 @@ func hostileScripts(r *rep.Report, e rep.Env, via string) {
 		default:
 			t = newHTTPTarget(kind == "linear")
 		}
+		// variable names are any strings that start with '?': names with characters that mean something
+		// elsewhere (regular expressions, JavaScript), in rules whose action goes to an external endpoint
+		// (the action's code has the bindings substituted into it) or runs as a script
+		for vi, vn := range []string{"?who(", "?a[", "?x)", "?*", "?+x", "?\\", "?{2", "?|", "?a b", "?$1", "?a.b", "?\"q"} {
+			for _, act := range []map[string]interface{}{
+				{"endpoint": "http://127.0.0.1:1/none", "code": map[string]interface{}{"greeting": "hello " + vn, "to": vn, "n": "?other"}},
+				{"code": "1"},
+			} {
+				rule := map[string]interface{}{"when": map[string]interface{}{"pattern": map[string]interface{}{"hv": fmt.Sprint(vi), "left": vn}}, "action": act}
+				calls := []call{
+					{Via: via, State: kind, Op: "addRule", Id: "hv", Doc: rule},
+					{Via: via, State: kind, Op: "event", Doc: map[string]interface{}{"hv": fmt.Sprint(vi), "left": "bart"}},
+				}
+				for _, c := range calls {
+					r.Journal(c)
+					var derr error
+					returned, pan := drv.Guard(callLimit, func() { _, derr = t.do(c) })
+					r.Case(true, "hostile-varname"+via+kind+vn+c.Op+fmt.Sprint(act["endpoint"]))
+					r.Count("hostile_variable_name_requests", 1)
+					wit := rep.J{"call": c, "variable": vn, "error": drv.ErrStr(derr)}
+					if !returned {
+						r.Violate(hangKey(c), "the call did not return within 25 s (hang)", wit)
+						return
+					}
+					if pan != "" {
+						wit["panic"] = pan
+						r.Violate(panicKey(pan, c), "a panic escaped a public operation: "+firstLine(pan), wit)
+					}
+					if na, ok := derr.(*noAnswer); ok {
+						wit["error"] = na.Error()
+						r.Violate(noAnswerKey(c), "the HTTP service gave neither a result nor an error response (connection dropped)", wit)
+					}
+				}
+				clean := false
+				if ret, pan := drv.Guard(callLimit, func() { clean = t.cleanup() }); !ret || pan != "" {
+					r.Violate("", "removing a rule with an unusual variable name hangs or panics: "+firstLine(pan), rep.J{"variable": vn})
+					return
+				}
+				if clean {
+					var cerr error
+					if ret, pan := drv.Guard(callLimit, func() { cerr = t.canary(vi, true) }); !ret || pan != "" || cerr != nil {
+						r.Violate("", fmt.Sprintf("after a rule with an unusual variable name ran and was removed ordinary requests fail (returned=%v panic=%q error=%v)", ret, firstLine(pan), cerr), rep.J{"variable": vn})
+					}
+				}
+			}
+		}
 		for ci, code := range codes {
 			for _, pos := range []string{"action", "condition"} {
 				rule := map[string]interface{}{"when": map[string]interface{}{"pattern": map[string]interface{}{"hs": fmt.Sprint(ci)}}, "action": map[string]interface{}{"code": "1"}}
